@@ -6,12 +6,14 @@
   `fa` the literal tolerance of `FiniteRatesEVSE` (also 1e-3).
 -/
 import AcnModel.Evse
+import AcnModel.EvseNet
 import AcnModel.Gen.Consts
 import AcnProofs.Lemmas.Basic
+import AcnProofs.Lemmas.EvseNet
 import Mathlib.Tactic
 
 namespace Acn.C13
-open Acn Acn.Evse
+open Acn Acn.Evse Acn.EvseNet
 
 variable {K : Type} [Field K] [LinearOrder K] [IsStrictOrderedRing K]
 
@@ -240,6 +242,126 @@ theorem plugin_vacant (s : Evse K) (e : Ev K) (h : s.ev = none) :
   simp [plugin, h]
 end
 
+/-! ### the description a scheduler reads is the station's own, in a network of any size
+
+`AcnModel/EvseNet.lean`: `register_evse` calls build the network; `_update_info_store` caches the
+per-station containers; `Interface.allowable_pilot_signals / max_pilot_signal / min_pilot_signal`
+index them through the id → index dict. -/
+
+/-- every network built by `register_evse` calls has pairwise distinct station ids (an `OrderedDict`):
+    the hypothesis of `info_cache_eq` holds for all of them -/
+theorem registered_ids_nodup (regs : List (Station K)) :
+    ((Net.run regs).stations.map (·.id)).Nodup := run_ids_nodup regs
+
+/-- which EVSE answers under an id: the LAST one registered under it, and every registered id answers -/
+theorem registered_last_wins (regs : List (Station K)) (s : Station K) :
+    s ∈ (Net.run regs).stations ↔
+      ∃ pre post, regs = pre ++ s :: post ∧ ∀ t ∈ post, t.id ≠ s.id := mem_run_iff regs s
+
+/-- `InfrastructureInfo` is constructible (its `_validate` passes) exactly for the networks in which
+    no id was registered twice; those networks are the registration list itself, in order -/
+theorem registered_consistent_iff (regs : List (Station K)) :
+    infraOk (Net.run regs) = true ↔ (regs.map (·.id)).Nodup := by
+  simp only [infraOk, run_nVolt, beq_iff_eq]
+  rw [eq_comm]
+  exact run_length_eq_iff regs
+
+/-- INFO CACHE: for every network with distinct ids (of any size, any mix of classes, stations sharing
+    class / min / max or not) and every registered station, the three Interface accessors return that
+    station's OWN continuity flag, allowable description, maximum and minimum. -/
+theorem info_cache_eq (n : Net K) (hn : (n.stations.map (·.id)).Nodup) (hv : infraOk n = true)
+    (s : Station K) (hs : s ∈ n.stations) :
+    ifaceAllowable n s.id = .ok (isContinuous s.kind, allowable s.kind) ∧
+    ifaceMax n s.id = .ok (maxRate s.kind) ∧ ifaceMin n s.id = .ok (minRate s.kind) := by
+  obtain ⟨i, hi, hget⟩ := List.mem_iff_getElem.mp hs
+  have hget? : n.stations[i]? = some s := by rw [List.getElem?_eq_getElem hi, hget]
+  have hidx : stationIndex (List.map (fun x => x.id) n.stations) s.id = some i :=
+    stationIndex_of_nodup hn (by simp [List.getElem?_map, hget?])
+  simp [ifaceAllowable, ifaceMax, ifaceMin, lookup, hv, infoStore, hidx, List.getElem?_map, hget?]
+
+/-- an id that was never registered is answered by `KeyError`, not by some other station's description -/
+theorem info_cache_unknown (n : Net K) (hv : infraOk n = true) (sid : String)
+    (h : sid ∉ n.stations.map (·.id)) :
+    ifaceAllowable n sid = .error .keyError ∧ ifaceMax n sid = .error .keyError ∧
+    ifaceMin n sid = .error .keyError := by
+  have hidx : stationIndex (infoStore n).ids sid = none := stationIndex_eq_none.mpr h
+  simp [ifaceAllowable, ifaceMax, ifaceMin, lookup, hv, hidx]
+
+/-- the accessors never run past a container (`Err.indexError` is unreachable) -/
+theorem info_cache_no_index_error (n : Net K) (sid : String) :
+    ifaceAllowable n sid ≠ .error .indexError ∧ ifaceMax n sid ≠ .error .indexError ∧
+    ifaceMin n sid ≠ .error .indexError := by
+  unfold ifaceAllowable ifaceMax ifaceMin lookup
+  by_cases hv : infraOk n = true
+  · cases hidx : stationIndex (infoStore n).ids sid with
+    | none => simp [hv]
+    | some i =>
+      have hlt := stationIndex_lt hidx
+      simp only [infoStore, List.length_map] at hlt
+      simp [hv, infoStore, List.getElem?_map, List.getElem?_eq_getElem hlt]
+  · simp [hv]
+
+/-- every finite value of a well-formed EVSE's own description is accepted by that EVSE -/
+theorem advertised_values_accepted (atol fa : K) (ha : 0 ≤ atol) (hfa : 0 ≤ fa) (k : Kind K)
+    (hwf : WellFormed k) (v : K) (hv : v ∈ advertisedValues k) : validRate atol fa k v = true := by
+  cases k with
+  | cont mn mx =>
+    cases mx with
+    | none =>
+      simp [advertisedValues, allowable, maxRate] at hv
+      subst hv
+      exact advertised_accepted_cont_inf atol fa _ _ ha le_rfl
+    | some mx =>
+      simp only [WellFormed] at hwf
+      simp [advertisedValues, allowable, maxRate] at hv
+      rcases hv with rfl | rfl
+      · exact advertised_accepted_cont atol fa _ _ _ ha le_rfl hwf
+      · exact advertised_accepted_cont atol fa _ _ _ ha hwf le_rfl
+  | deadband db mx =>
+    cases mx with
+    | none =>
+      simp [advertisedValues, allowable, maxRate] at hv
+      subst hv
+      simp only [validRate, leBound, isclose0, absK_eq_abs, Bool.or_eq_true, decide_eq_true_eq,
+        Bool.and_true]
+      right; linarith
+    | some mx =>
+      simp only [WellFormed] at hwf
+      simp [advertisedValues, allowable, maxRate] at hv
+      rcases hv with rfl | rfl
+      · exact advertised_accepted_deadband atol fa _ _ _ ha (Or.inr ⟨le_rfl, hwf⟩)
+      · exact advertised_accepted_deadband atol fa _ _ _ ha (Or.inr ⟨hwf, le_rfl⟩)
+  | finite rates =>
+    simp only [WellFormed] at hwf
+    simp [advertisedValues, allowable, maxRate] at hv
+    rcases hv with hv | rfl
+    · exact advertised_accepted_finite atol fa rates hfa v hv
+    · exact advertised_accepted_finite atol fa rates hfa _ (listMax_spec rates hwf).1
+
+/-- ADVERTISED ⇒ ACCEPTED THROUGH THE NETWORK: for every sequence of `register_evse` calls with
+    distinct ids, every station of the resulting network and every finite value that the Interface
+    reports for that station's id (each entry of `allowable_pilot_signals`, and `max_pilot_signal`):
+    the station itself accepts the value. -/
+theorem advertised_accepted_net (atol fa : K) (ha : 0 ≤ atol) (hfa : 0 ≤ fa)
+    (regs : List (Station K)) (hreg : (regs.map (·.id)).Nodup)
+    (s : Station K) (hs : s ∈ (Net.run regs).stations) (hwf : WellFormed s.kind)
+    (c : Bool) (a : List (Bound K)) (m : Bound K)
+    (h1 : ifaceAllowable (Net.run regs) s.id = .ok (c, a)) (h2 : ifaceMax (Net.run regs) s.id = .ok m)
+    (v : K) (hv : some v ∈ a ∨ m = some v) : validRate atol fa s.kind v = true := by
+  obtain ⟨e1, e2, -⟩ := info_cache_eq (Net.run regs) (registered_ids_nodup regs)
+    ((registered_consistent_iff regs).mpr hreg) s hs
+  rw [e1] at h1
+  rw [e2] at h2
+  injection h1 with h1
+  injection h2 with h2
+  injection h1 with _ h1
+  subst h1 h2
+  apply advertised_values_accepted atol fa ha hfa s.kind hwf
+  simp only [advertisedValues, List.mem_filterMap, List.mem_append, List.mem_singleton, id]
+  rcases hv with hv | hv
+  · exact ⟨some v, Or.inl hv, rfl⟩
+  · exact ⟨some v, Or.inr hv.symm, rfl⟩
+
 /-! ### obligations on the constants and tables regenerated from the source (T1) -/
 
 /-- "within 1e-3 A": every tolerance in evse.py is 1e-3 absolute, 0 relative. -/
@@ -261,5 +383,33 @@ example : validRate (1/1000 : ℚ) (1/1000) (.cont 0 (some 32)) (32 + 1/1000) = 
 example : validRate (1/1000 : ℚ) (1/1000) (.cont 0 (some 32)) (32 + 2/1000) = false := by decide +kernel
 example : validRate (1/1000 : ℚ) (1/1000) (.deadband 6 (some 32)) 3 = false := by decide +kernel
 example : Evse.normalize ([16, 8, 8, 32] : List ℚ) = [0, 8, 16, 32] := by decide +kernel
+
+/-- the scenario class of two same-class stations with equal min/max and different allowable sets
+    (deadband ends 6 / 8 under one maximum; finite lists with the same smallest and largest step):
+    each id is answered with its own description, an unknown id with `KeyError` -/
+def exampleRegs : List (Station ℚ) :=
+  [⟨"DB-6", .deadband 6 (some 32)⟩, ⟨"DB-8", .deadband 8 (some 32)⟩,
+   ⟨"FR-A", .finite (Evse.normalize [0, 8, 16, 32])⟩, ⟨"FR-B", .finite (Evse.normalize [32, 24, 8, 8])⟩]
+
+example :
+    (ifaceAllowable (Net.run exampleRegs) "DB-8").toOption = some (true, [some 8, some 32]) ∧
+    (ifaceAllowable (Net.run exampleRegs) "FR-B").toOption = some (false, [some 0, some 8, some 24, some 32]) ∧
+    (ifaceAllowable (Net.run exampleRegs) "FR-A").toOption = some (false, [some 0, some 8, some 16, some 32]) ∧
+    (ifaceMax (Net.run exampleRegs) "nope").toOption = none ∧
+    (exampleRegs.map (·.id)).Nodup ∧ infraOk (Net.run exampleRegs) = true := by
+  decide +kernel
+
+/-- the hypotheses of `advertised_accepted_net` are satisfiable on that network -/
+example : ∀ s ∈ exampleRegs, WellFormed s.kind := by
+  intro s hs
+  simp only [exampleRegs, List.mem_cons, List.not_mem_nil, or_false] at hs
+  rcases hs with rfl | rfl | rfl | rfl
+  · simp only [WellFormed]; norm_num
+  · simp only [WellFormed]; norm_num
+  · simp only [WellFormed]; decide +kernel
+  · simp only [WellFormed]; decide +kernel
+
+example : infraOk (Net.run ([⟨"A", .cont 0 (some 32)⟩, ⟨"A", .deadband 6 none⟩] : List (Station ℚ))) = false := by
+  decide +kernel
 
 end Acn.C13
